@@ -59,6 +59,7 @@ func init() {
 	m["path/filepath.Abs"] = libAbs
 	m["path/filepath.Clean"] = libClean
 	m["strings.ReplaceAll"] = libReplaceAll
+	m["path/filepath.ToSlash"] = libToSlash
 	m["(*github.com/spf13/cobra.Command).Flags"] = libNonNil
 	for k, v := range m {
 		libModels[k] = v
@@ -678,4 +679,10 @@ func libBinaryRead(g *FuncGen, c *ast.CallExpr, callee *types.Func, st *State) [
 func libDir(g *FuncGen, c *ast.CallExpr, callee *types.Func, st *State) []Val {
 	p := g.ev(c.Args[0], st)
 	return []Val{{fmt.Sprintf("(pdir %s)", p.T), types.Typ[types.String], "Bytes"}}
+}
+
+// filepath.ToSlash: the identity where the separator is '/', as on the platform these checks run on (GOOS=linux)
+func libToSlash(g *FuncGen, c *ast.CallExpr, callee *types.Func, st *State) []Val {
+	g.libNote("filepath.ToSlash: identity (GOOS=linux)")
+	return []Val{g.ev(c.Args[0], st)}
 }
